@@ -70,6 +70,8 @@ func checkC20(c *Ctx) {
 	defer func() { world.UseOpLog = false }()
 	RestartRestoredMachines = func(commSeed uint64) bool { return commSeed%2 == 0 }
 	defer func() { RestartRestoredMachines = nil }()
+	RepeatSetSeed = func(commSeed uint64) bool { return commSeed%3 == 1 }
+	defer func() { RepeatSetSeed = nil }()
 	type job struct {
 		n, t  int
 		shape string // plain | adapted014 | interleaved | later-proposal | second-ceremony
@@ -191,6 +193,10 @@ func runC20(c *Ctx, n, t int, shape string, seed uint64) {
 	if ce.MachinesRestartedFirst {
 		wit["restored_machines_restarted_before_the_reinit_operation"] = true
 		c.Add("reinitialisations_on_machines_restarted_after_restore", 1)
+	}
+	if ce.SeedSetTwice {
+		wit["mnemonic_entered_twice_on_the_restored_machines"] = true
+		c.Add("reinitialisations_on_machines_whose_seed_was_set_twice", 1)
 	}
 	judgeReinit(c, ce, re, origKey, oracle.CommitsBytes(origPoly), origShares, origView, wit, r)
 }
